@@ -171,6 +171,18 @@ def verifyERP (idx : Index) (W : Int) (v : VW) (fuel : Nat) (b : Block) : Verdic
       | .err _ => .walkErr
       | .ok m => if m.length > 0 then .dupAncestor else .ok
 
+/-- C10's expiry interval as `Processor.Execute` applies it to every tx of a block, with the exact
+(unrounded, millisecond) block timestamp: `b.ts ≤ expiry ≤ b.ts + W`. -/
+def txsValidAt (W : Int) (b : Block) : Bool :=
+  b.txs.all fun t => decide (b.ts ≤ t.expiry) && decide (t.expiry ≤ b.ts + W)
+
+/-- The part of `Processor.Execute` (isNormalOp) that concerns C09: first
+`VerifyExpiryReplayProtection`, then every tx's expiry check; `none` = the block executes. -/
+def executeVerdict (idx : Index) (W : Int) (v : VW) (fuel : Nat) (b : Block) : String :=
+  match verifyERP idx W v fuel b with
+  | .ok => if txsValidAt W b then "ok" else "tx-invalid"
+  | e => e.str
+
 /-- The parent walk of `populate`; `acc` is the list built so far, *oldest first* (Go appends
 and reverses afterwards). Returns the chronological list and `fullValidityWindow`. -/
 def populateWalk (idx : Index) (oldest : Int) : Nat → Block → List Block → List Block × Bool
